@@ -286,6 +286,43 @@ def run_tool(exe, args, timeout=900, stdin=None):
     return p.stdout.decode('utf-8', 'replace').split('\n'), time.time() - t0
 
 
+def run_tool_sharded(exe, args, path, shards=16, timeout=2400, min_lines=4000):
+    """run `exe args... <case file>` on the case file cut into `shards` pieces of whole lines, in parallel; the outputs are
+    concatenated in order (every tool handles its case lines independently of each other)"""
+    with open(path) as f:
+        lines = f.read().split('\n')
+    if lines and lines[-1] == '':
+        lines.pop()
+    if len(lines) < min_lines or shards <= 1:
+        return run_tool(exe, args + [path], timeout=timeout)
+    import concurrent.futures
+    t0 = time.time()
+    n = (len(lines) + shards - 1) // shards
+    parts = []
+    for i in range(shards):
+        chunk = lines[i * n:(i + 1) * n]
+        if not chunk:
+            break
+        pp = '%s.shard%d' % (path, i)
+        with open(pp, 'w') as f:
+            f.write('\n'.join(chunk) + '\n')
+        parts.append(pp)
+    with concurrent.futures.ThreadPoolExecutor(max_workers=len(parts)) as ex:
+        outs = list(ex.map(lambda pp: run_tool(exe, args + [pp], timeout=timeout)[0], parts))
+    for pp in parts:
+        try:
+            os.remove(pp)
+        except OSError:
+            pass
+    out = []
+    for o in outs:
+        if o and o[-1] == '':
+            o = o[:-1]
+        out.extend(o)
+    out.append('')
+    return out, time.time() - t0
+
+
 # ---------------------------------------------------------------- diff helpers
 
 def diff_lines(model, impl, sort=False, limit=5):
